@@ -2085,11 +2085,41 @@ def _enum_members(j, acc=None):
     return acc
 
 
+def _has_empty(j) -> bool:
+    if isinstance(j, dict):
+        if ("q" in j and not j["q"]) or ("m" in j and not j["m"]):
+            return True
+        return any(_has_empty(v) for v in j.values())
+    if isinstance(j, list):
+        return any(_has_empty(v) for v in j)
+    return False
+
+
 def _has_key(j, key) -> bool:
     if isinstance(j, dict):
         return key in j or any(_has_key(v, key) for v in j.values())
     if isinstance(j, list):
         return any(_has_key(v, key) for v in j)
+    return False
+
+
+_NEG_ZERO = re.compile(r"^\s*-0*(\.0*)?([eE][+-]?\d+)?\s*$")
+
+
+def negative_zero(case) -> bool:
+    """`-0.0` has no form in Conv.lean's float codec (`FloatV.fin 0 0` is the only zero), so texts such as `str(-0.0)` differ:
+    inputs holding a negative zero in any spelling get no verdict from the comparison (the oracle still sees them)"""
+    vals = []
+    v = case["value"]
+    for j in ([v] if case["via"] != "fn" else list(v["args"]) + list(v["kwargs"].values())):
+        _walk_json_values(j, vals)
+    for x in vals:
+        if isinstance(x, float) and x == 0 and math.copysign(1, x) < 0:
+            return True
+        if isinstance(x, Decimal) and x.is_zero() and x.is_signed():
+            return True
+        if isinstance(x, str) and "-" in x and any(_NEG_ZERO.match(t) for t in re.split(r"[\s,;:=&\[\](){}\"']+", x) + [x]):
+            return True
     return False
 
 
@@ -2259,7 +2289,7 @@ class C01(Check):
     def compare(self, case, io, mo):
         if "decl" in io or "unsupported" in io or mo is None:
             return None
-        if nested_mixin_member(case):
+        if nested_mixin_member(case) or negative_zero(case):
             return None
         if io.get("hang") or io.get("crash"):
             return "worker hang / crash"
@@ -2343,10 +2373,13 @@ class C01(Check):
                 except Exception:
                     pass
             texts = [x for x in vals if isinstance(x, str)] + [str(int(x)) for x in vals if isinstance(x, (bool, int))]
+            if any(x is None or (isinstance(x, str) and x == "") or (isinstance(x, (int, float)) and x == 0) for x in vals) \
+                    or _has_empty(case["value"]):
+                texts.append("0")           # `_attempt_from_number` turns a falsy value into 0, which may be rendered as text on the way
             tokens = [t for x in texts for t in re.split(r"[\s,;:=&\[\](){}\"']+", x)] + texts     # texts are split / parsed into items
             if base["t"] == "int" and any(x.strip().lower() in c12.TRUE_WORDS + c12.FALSE_WORDS for x in tokens):
                 return "subclass-result-plain"            # to_integer: the literals 0 / 1 for the boolean words
-            if base["t"] == "time" and (texts or _has_key(case["value"], "dt")):
+            if base["t"] == "time" and (texts or _has_key(case["value"], "dt") or _has_key(case["value"], "date")):
                 return "subclass-result-plain"            # to_time: data.time() / to_datetime(text).time()
             if base["t"] == "timedelta" and texts:
                 return "subclass-result-plain"            # to_timedelta: sign * t(**kw) for a duration text
